@@ -58,6 +58,7 @@ def gen_case(rng, npools=1, style="mix", stop=True, cancels=True):
     ops = []
     cur = clock
     ntask = 0
+    ticks = 0          # total of all Tick instructions submitted so far: the model clock never exceeds cur + ticks
     tpool = []
     stopped = set()
     for _ in range(rng.randint(4, 24)):
@@ -66,7 +67,9 @@ def gen_case(rng, npools=1, style="mix", stop=True, cancels=True):
         if k < 0.35 or ntask == 0:
             pr = rng.random()
             prio = None if pr < 0.5 else str(rng.choice([0, 1, 1, -1, 2, I64MIN, I64MAX]))
-            ops.append({"op": "submit", "p": p, "body": gen_task(rng, uid, cur, style), "prio": prio})
+            body = gen_task(rng, uid, cur, style)
+            ticks += sum(int(i["d"]) for i in body if i["i"] == "tick")
+            ops.append({"op": "submit", "p": p, "body": body, "prio": prio})
             ntask += 1
             tpool.append(p)
         elif k < 0.62:
@@ -74,7 +77,8 @@ def gen_case(rng, npools=1, style="mix", stop=True, cancels=True):
             deadline = U64 if d < 0.6 else (cur + rng.choice([1, 2, 5, 30]) * 1000 if d < 0.85 else rng.choice([0, cur]))
             ops.append({"op": "pass", "p": p, "deadline": str(min(deadline, U64))})
         elif k < 0.70:
-            cur = min(U64 // 1000 * 1000, cur + rng.choice([1, 2, 5, 20, 200]) * 1000)
+            # time never goes backwards: step past every tick that may have run meanwhile
+            cur = min(U64 // 1000 * 1000, cur + ticks + rng.choice([1, 2, 5, 20, 200]) * 1000)
             ops.append({"op": "clock", "c": str(cur)})
         elif k < 0.80:
             t = rng.randrange(ntask)   # a join handle asks the loop the task was submitted to
@@ -90,7 +94,7 @@ def gen_case(rng, npools=1, style="mix", stop=True, cancels=True):
             ops.append({"op": "stop", "p": p, "dur": str(rng.choice([0, 2, 5]) * 10**6)})
             stopped.add(p)
     # settle: advance, run everything, read counters and results
-    cur = min(U64 // 1000 * 1000, cur + 10**9)
+    cur = min(U64 // 1000 * 1000, cur + ticks + 10**9)
     ops.append({"op": "clock", "c": str(cur)})
     for p in range(npools):
         ops.append({"op": "pass", "p": p, "deadline": str(U64)})
